@@ -206,6 +206,47 @@ Section Safety.
     split; [apply frame_refl|]. split; [exact OK|]. intros _. left. destruct st; cbn in ED; congruence.
   Qed.
 
+  (* ---- frames that hold with no precondition (used for the `download` command) *)
+  Lemma prob_status_keeps s : keeps s (final (prob_status s)).
+  Proof. pose proof (prob_status_spec s) as P. destruct (prob_status s); cbn; tauto. Qed.
+
+  Lemma download_file_frame s : frame s (final (download_file s)).
+  Proof. pose proof (download_file_spec s) as P. destruct (download_file s); cbn; tauto. Qed.
+
+  Lemma attempts_frame n : forall st s, frame s (final (attempts n st s)).
+  Proof.
+    induction n as [|n IH]; intros st s; cbn; [apply frame_refl|].
+    destruct (status_eqb st SDownloaded); [apply frame_refl|].
+    set (s1 := if status_eqb st SCorrupted then set_archive None s else s).
+    assert (F1 : frame s s1) by (unfold s1; destruct (status_eqb st SCorrupted); split; reflexivity).
+    pose proof (download_file_frame s1) as D. destruct (download_file s1) as [u s2|x s2]; cbn in *.
+    - pose proof (prob_status_keeps s2) as P. destruct (prob_status s2) as [st' s3|x s3]; cbn in *.
+      + eapply frame_trans; [exact F1|]. eapply frame_trans; [exact D|]. eapply frame_trans; [apply keeps_frame; exact P|apply IH].
+      + eapply frame_trans; [exact F1|]. eapply frame_trans; [exact D|apply keeps_frame; exact P].
+    - eapply frame_trans; eassumption.
+  Qed.
+
+  Lemma download_frame n st s : frame s (final (download n st s)).
+  Proof. unfold MDownload.download. destruct (status_eqb st SDownloaded); [apply frame_refl|apply attempts_frame]. Qed.
+
+  (* the `download` command never touches the index or the extraction log, whatever the server does *)
+  Lemma download_cmd_frame n force s :
+    frame s (final (MDownload.download_cmd sha srv name expected n force s)).
+  Proof.
+    unfold MDownload.download_cmd.
+    pose proof (prob_status_keeps s) as P. destruct (prob_status s) as [st s1|x s1]; cbn in *; [|apply keeps_frame; exact P].
+    apply keeps_frame in P.
+    assert (Q : forall m : outcome status,
+              (m = Ret st s1 \/ m = prob_status (set_archive None s1)) -> frame s1 (final m)).
+    { intros m [->| ->]; [apply frame_refl|].
+      eapply frame_trans; [|apply keeps_frame; apply prob_status_keeps]. split; reflexivity. }
+    match goal with |- context [bind ?m _] => assert (F : frame s1 (final m)) end.
+    { destruct (archive s1); [destruct force|]; apply Q; auto. }
+    match goal with |- context [bind ?m _] => destruct m as [st2 s2|x s2] end; cbn in *.
+    - eapply frame_trans; [exact P|]. eapply frame_trans; [exact F|apply download_frame].
+    - eapply frame_trans; eassumption.
+  Qed.
+
   (* ---- the whole installation, every case *)
   Definition install_post (n : nat) (force nc : bool) (s0 : lstate) (r : outcome status) : Prop :=
     let sf := final r in
@@ -312,7 +353,7 @@ Section History.
          is_installed name s0 = true \/ exists b, In (EExtract b false) new /\ sha b = expected) /\
       (forall m, m <> name -> (In m (index sf) <-> In m (index s0))).
 
-  Lemma step_post srv untar_fails n force nc s :
+  Lemma install_step_post srv untar_fails n force nc s :
     hist_post s (final (install_n sha srv name expected untar_fails n force nc s)).
   Proof.
     destruct (install_spec sha srv name expected untar_fails n force nc s) as [O H].
@@ -328,6 +369,15 @@ Section History.
         * intros b' m [E|[]]; inversion E; subst; auto.
         * split; [congruence|exact O].
       + exists []. split; [exact L|]. split; [intros ? ? []|]. split; [congruence|exact O].
+  Qed.
+
+  Lemma step_post c s : hist_post s (final (run_call sha name expected c s)).
+  Proof.
+    unfold run_call. destruct (k_kind c); [apply install_step_post|].
+    destruct (download_cmd_frame sha (k_srv c) name expected (k_untar c) (k_attempts c) (k_force c) s) as [FI FL].
+    exists []. split; [exact FL|]. split; [intros ? ? []|]. split.
+    - intros I. left. unfold is_installed in *. rewrite <- FI. exact I.
+    - intros m _. rewrite FI. tauto.
   Qed.
 
   Lemma hist_post_trans a b c : hist_post a b -> hist_post b c -> hist_post a c.
